@@ -132,6 +132,14 @@ func rtCheckSkip(rep *Report, in []byte, wellFormed bool) {
 }
 
 func engineRT(rep *Report) {
+	openProgress()
+	only := onlyIndex()
+	if only >= 0 {
+		// solo re-run of one Skip input (attribution of a hang): regenerate the shard's input stream up to it
+		rtSkipInputs(rep, only)
+		setProgress(-1, -1, 0)
+		return
+	}
 	si, sn := shard()
 	rep.Types = append(rep.Types, "runtime")
 	// ---- boundaries (every shard does them; cheap)
@@ -181,6 +189,14 @@ func engineRT(rep *Report) {
 		rep.Sample("C15", map[string]interface{}{"sweep": "Sov/Soz for every x in [0,2^32), x<<32 and x<<32|0xffffffff vs protowire; EncodeVarint at offsets 10..20 with canaries", "stride_encodevarint": stride})
 	}
 	// ---- Skip
+	nskip := rtSkipInputs(rep, -1)
+	rep.Count("C15", "skip-inputs", int64(nskip))
+	setProgress(-1, -1, 0)
+}
+
+// rtSkipInputs drives Skip over the shard's seeded input stream; with only >= 0 just that input is executed.
+func rtSkipInputs(rep *Report, only int) int {
+	si, _ := shard()
 	r := rand.New(rand.NewSource(caseSeed(*flagSeed, "skip", si, "rt")))
 	nskip := perType(20000, 600000)
 	for i := 0; i < nskip; i++ {
@@ -223,11 +239,15 @@ func engineRT(rep *Report) {
 				in = append(in, byte(r.Intn(256)))
 			}
 		}
+		if only >= 0 && i != only {
+			continue
+		}
+		setProgress(0, i, 3)
 		rtCheckSkip(rep, in, wf)
 		rep.Eval("C15", in, len(in) > 0)
 		if si == 0 && i < 3 {
 			rep.Sample("C15", map[string]interface{}{"skip_input_hex": hex.EncodeToString(in), "well_formed": wf})
 		}
 	}
-	rep.Count("C15", "skip-inputs", int64(nskip))
+	return nskip
 }
